@@ -364,3 +364,41 @@ def known_f25(steps=3):
             except Exception as e:
                 print(f"KNOWN-FINDING-F25-INPUT-FAILS: {what}, optimize_qubit_ordering={optimize}: {type(e).__name__}: "
                       f"{' '.join(str(e).split())[:120]} ({where_exc(e)})")
+
+
+def sv_trajectories_do_not_share_the_matrix(n_traj=6):
+    """emu-sv through the real trajectory loop: a user-supplied interaction matrix, state-preparation errors and
+    several trajectories.  Each trajectory zeroes the couplings of ITS bad atoms; the matrix the next trajectory
+    starts from must still be the configured one (whatever is zeroed must be a per-trajectory copy)."""
+    import pulser
+    from emu_base import PulserData
+    from emu_sv import SVConfig
+    from emu_sv.sv_backend import SVBackend
+    from pulser.backend import Occupation
+    n = 4
+    reg = pulser.Register({f"q{i}": (7.0 * i, 0.0) for i in range(n)})
+    seq = pulser.Sequence(reg, pulser.MockDevice)
+    seq.declare_channel("ch0", "rydberg_global")
+    seq.add(pulser.Pulse.ConstantPulse(60, 4.0, 0.5, 0.0), "ch0")
+    user = torch.tensor([[0.0, 3.0, 1.0, 0.5], [3.0, 0.0, 2.0, 1.5], [1.0, 2.0, 0.0, 2.5], [0.5, 1.5, 2.5, 0.0]], dtype=torch.float64)
+    import random as _r
+    _r.seed(5)
+    torch.manual_seed(5)
+    import numpy as _np
+    _np.random.seed(5)
+    cfg = SVConfig(dt=10, observables=[Occupation(evaluation_times=[1.0])], log_level=50, gpu=False, n_trajectories=n_traj,
+                   noise_model=pulser.NoiseModel(state_prep_error=0.4), interaction_matrix=user.tolist())
+    pd = PulserData(sequence=seq, config=cfg, dt=cfg.dt)
+    masks = []
+    for k, sd in enumerate(pd.get_sequences()):
+        before = sd.interaction_matrix(float(sd.target_times[-1])).clone().to(torch.float64)
+        if not torch.equal(before, user):
+            return [f"emu-sv, configured interaction matrix, state_prep_error=0.4, trajectory {k} (bad atoms of the earlier "
+                    f"trajectories: {masks}): the matrix this trajectory STARTS from is no longer the configured one "
+                    f"(rows/columns {[i for i in range(n) if before[i].abs().sum() == 0]} are zero): trajectories share one tensor"]
+        masks.append([i for i, b in enumerate(sd.bad_atoms) if b])
+        SVBackend._run_from_sequence_data(sd, cfg)
+    if not any(masks):
+        return []          # no bad atom drawn: scenario void on this tree
+    return []
+
